@@ -21,3 +21,5 @@ def run(prog, rep):
     _rkx.run_handles_only(prog, rep)
     from ..rules import r_flow as _rfa
     _rfa.run_aligned(prog, rep)
+    from ..rules import r_pair as _rpp18
+    _rpp18.run_pos_pass(prog, rep)
